@@ -148,6 +148,9 @@ def plan_scenario(job):
                 last_acc = t
     if sc["spec"]["delete_old"] and last_acc:
         kinds["accept-with-deletion"] = last_acc
+    if sc["spec"]["workers"] >= 2 and t >= 4:
+        # a step so close to the end that the jobs in flight cover all the steps that are left
+        kinds["step-before-the-last"] = t - 1
     for kind, target in sorted(kinds.items()):
         d, restarted = prepare(sc)
         try:
@@ -202,7 +205,9 @@ def crash_job(job):
         except Exception:  # noqa: BLE001
             cfg, cstep_disk = None, None
         # ---- recovery (optionally crashing again at its first completed step)
-        N2 = sc["N"] + W + 3
+        # the recovery runs on to more steps than the killed run was asked for - or, for a crash close to the end, to just
+        # those (the jobs in flight then cover all the steps that are left)
+        N2 = sc["N"] if kind == "step-before-the-last" else sc["N"] + W + 3
         if second is not None:
             try:
                 if isinstance(second, str):  # "setup:<k>:<cut>": die while the restart is being prepared (repair of the data file)
@@ -266,6 +271,8 @@ def crash_job(job):
         reached = res.get("cstep_end") if res.get("cstep_end") is not None else cfg2["current"]["cstep"]
         if reached != N2:
             rec.violation(f"C08:continuation-did-not-reach-the-requested-steps@{where}", f"{reached} != {N2}", replay)
+        elif res.get("cstep_start") is not None and res.get("treat_count") is not None and res["treat_count"] != N2 - res["cstep_start"]:
+            rec.violation(f"C08:steps-counted-without-a-completed-move@{where}", f"the continuation went from step {res['cstep_start']} to {N2} with {res['treat_count']} completed moves", replay)
     finally:
         isolate.rmscratch(d)
     return rec
